@@ -3,8 +3,9 @@
 // watermark starts equal to the sequence counter -- nothing is in flight at open -- and the first timestamp that will be handed
 // out (seq_no + 1) lies above every timestamp already in the tree and above everything log recovery replayed, so a new write
 // is always newer than what the store held when it was opened.
-// ASSUMED: when the store is opened no batch is in flight (axiom_nothing_in_flight_at_open); LsmTree::max_timestamp returns the
-// biggest timestamp in the tree (a two-level max loop: read, not extracted); timestamps stay below 2^64 - 2.  That
+// ASSUMED: when the store is opened no batch is in flight (axiom_nothing_in_flight_at_open); timestamps stay below 2^64 - 2.
+// That LsmTree::max_timestamp returns the biggest timestamp in the tree is the contract of the stub here and the
+// postcondition proved on Version::max_timestamp at the end of this unit (the lock around it is dropped).  That
 // KeyValueStore::recover returns the biggest recovered timestamp is the contract of the stub here and the postcondition
 // proved on the whole function in unit lsmtk_recover.
 use vstd::prelude::*;
@@ -84,6 +85,55 @@ fn open_state(options: Options, root: Root, mut mani: Mani) -> (r: Result<(OpenS
 //@ >>
 //@ end
 
-//@ min-verified 1
+// ---------------------------------------------------------------- the biggest timestamp in the tree
+// Version::max_timestamp, entire (the function behind Tree::max_timestamp above; LsmTree::max_timestamp is
+// `self.version.lock().unwrap().max_timestamp()`): at least the biggest timestamp of every file of every level, and one of
+// them (or 0 for an empty tree).  Arc<SstMetadata> read as SstMetadata; the two iterator loops as index loops (X13).
+#[verifier::external_body]
+struct OtherMeta { _p: u8 }
+struct SstMetadata { smallest_timestamp: u64, biggest_timestamp: u64, rest: OtherMeta }
+struct Level { ssts: Vec<SstMetadata> }
+struct Version { levels: Vec<Level> }
+spec fn ts_at(v: Version, li: int, fi: int) -> u64 { v.levels@[li].ssts@[fi].biggest_timestamp }
+impl Version {
+//@ extract lsmtk/src/tree/mod.rs | impl Version :: fn max_timestamp
+//@ ret r
+//@ rewrite X13 `for level in self.levels.iter() {` => `for li in 0..self.levels.len() { let level = &self.levels[li];`
+//@ rewrite X13 `for file in level.ssts.iter() {` => `for fi in 0..level.ssts.len() { let file = &level.ssts[fi];`
+//@ rewrite-re? X4 `std::cmp::max\(` => `max_u64(`
+//@ rewrite-re? X4 `std::cmp::min\(` => `min_u64(`
+//@ rewrite-re? X4 `let mut seq_no = 0;` => `let mut seq_no: u64 = 0;`
+//@ post <<
+        forall|li: int, fi: int| 0 <= li < self.levels@.len() && 0 <= fi < self.levels@[li].ssts@.len() ==> r >= #[trigger] ts_at(*self, li, fi),
+        r == 0 || exists|li: int, fi: int| 0 <= li < self.levels@.len() && 0 <= fi < self.levels@[li].ssts@.len() && r == #[trigger] ts_at(*self, li, fi),
+//@ >>
+//@ loop `for li in` <<
+            invariant /* contract-inv */
+                forall|a: int, b: int| 0 <= a < li && 0 <= b < self.levels@[a].ssts@.len() ==> seq_no >= #[trigger] ts_at(*self, a, b), /* contract-inv */
+                seq_no == 0 || exists|a: int, b: int| 0 <= a < li && 0 <= b < self.levels@[a].ssts@.len() && seq_no == #[trigger] ts_at(*self, a, b), /* contract-inv */
+//@ >>
+//@ loop `for fi in` <<
+                invariant 0 <= li < self.levels@.len(), *level == self.levels@[li as int],
+                    forall|a: int, b: int| 0 <= a < li && 0 <= b < self.levels@[a].ssts@.len() ==> seq_no >= #[trigger] ts_at(*self, a, b), /* contract-inv */
+                    forall|b: int| 0 <= b < fi ==> seq_no >= #[trigger] ts_at(*self, li as int, b), /* contract-inv */
+                    seq_no == 0 || exists|a: int, b: int| 0 <= a <= li && 0 <= b < self.levels@[a].ssts@.len() && (a == li ==> b < fi) && seq_no == #[trigger] ts_at(*self, a, b), /* contract-inv */
+//@ >>
+//@ startloop `for fi in` <<
+                let ghost before = seq_no;
+//@ >>
+//@ endloop `for fi in` <<
+                proof {
+                    assert(ts_at(*self, li as int, fi as int) == file.biggest_timestamp);
+                    if seq_no != before { assert(seq_no == ts_at(*self, li as int, fi as int)); }
+                    else if before != 0 {
+                        let (a, b) = choose|a: int, b: int| 0 <= a <= li && 0 <= b < self.levels@[a].ssts@.len() && (a == li ==> b < fi) && before == #[trigger] ts_at(*self, a, b);
+                        assert(seq_no == ts_at(*self, a, b));
+                    }
+                }
+//@ >>
+//@ end
+}
+
+//@ min-verified 3
 } // verus!
 fn main() {}
